@@ -27,4 +27,4 @@ func (r *rng) bytes(n int) []byte {
 	return b
 }
 func (r *rng) pick(xs ...int) int { return xs[r.intn(len(xs))] }
-func (r *rng) fork() *rng       { return &rng{r.u64()} }
+func (r *rng) fork() *rng         { return &rng{r.u64()} }
